@@ -97,7 +97,7 @@ def register(reg):
                  "        self._storage.nset == old(self._storage.nset) + 1)"],
     )
     reg.contract(
-        "werkzeug/local.py:LocalStack.top", prop=P, self_model=Stk,
+        "werkzeug/local.py:LocalStack.top", prop=P, self_model=Stk, modifies=[], returns="Optional[opaque:any]",
         ensures=["implies(depth(self) == 0, result is None)",
                  "implies(depth(self) > 0, result == S(self)[depth(self) - 1])",
                  "self._storage.nset == old(self._storage.nset)"],
@@ -121,3 +121,17 @@ def register(reg):
                  "select(store(m, c, v), d) == select(m, d) for c != d; with the per-method facts "
                  "(payload objects never mutated, set() argument fresh) every operation of context c commutes with "
                  "every operation of a sibling context, and a child sees the payload object that existed at copy time")]
+    _register_proxy(reg)
+
+
+def _register_proxy(reg):
+    """LocalProxy over a LocalStack: the proxy is unbound exactly when the stack of the current context is empty --
+    a bound object that happens to be falsy is still the current object"""
+    Stk = reg.models["LocalStack"]
+    reg.contract(
+        "werkzeug/local.py:LocalProxy.__init__._get_current_object@1", prop="C18",
+        closure={"local": Stk, "get_name": ("modvalue", "_identity"), "unbound_message": "str"},
+        modifies=[],
+        ensures=["depth(local) > 0 and result == S(local)[depth(local) - 1]"],
+        raises={"RuntimeError": "depth(local) == 0"},
+    )
